@@ -296,6 +296,32 @@ func cmdFuzz(args []string) error {
 		f.one("valid", v)
 	}
 	flush()
+	// degenerate value tokens in every position a value can take: the delimiters in place, the parts between
+	// them empty, a lone quote, half-quoted (what the text parsers of C15 are given, here through lexer + hooks)
+	{
+		tm := fmtT(qt1)
+		var preds []string
+		for _, id := range []string{"p", ""} {
+			for _, a := range []string{`"`, `""`, `"` + tm, tm + `"`, `"` + tm + `"`, `"x"`, ",", `",`, `,"`, `"` + tm + `",`, `?t"`, `"?t`} {
+				preds = append(preds, `"`+id+`"@[`+a+`]`)
+			}
+		}
+		lits := []string{`""^^type:int64`, `" "^^type:bool`, `"["^^type:blob`, `"[]"^^type:blob`, `"1"^^type:`, `"^^type:text`, `"1e400"^^type:float64`, `""^^type:text`}
+		for _, pr := range preds {
+			f.one("skeleton", fmt.Sprintf(`select ?s from ?a where { ?s %s ?o };`, pr))
+			f.one("skeleton", fmt.Sprintf(`select ?s from ?a where { ?s ?p %s };`, pr))
+			f.one("skeleton", fmt.Sprintf(`insert data into ?a { /u<a> %s /u<b> };`, pr))
+			f.one("skeleton", fmt.Sprintf(`insert data into ?a { /u<a> "p"@[] %s };`, pr))
+			f.one("skeleton", fmt.Sprintf(`construct { ?s %s ?o } into ?b from ?a where { ?s ?p ?o };`, pr))
+		}
+		for _, l := range lits {
+			f.one("skeleton", fmt.Sprintf(`select ?s from ?a where { ?s ?p %s };`, l))
+			f.one("skeleton", fmt.Sprintf(`insert data into ?a { /u<a> "p"@[] %s };`, l))
+			f.one("skeleton", fmt.Sprintf(`select ?s from ?a where { ?s ?p ?o } limit %s;`, l))
+			f.one("skeleton", fmt.Sprintf(`select ?s from ?a where { ?s ?p ?o } having ?o < %s;`, l))
+		}
+		flush()
+	}
 	// C. mutations
 	for i := 0; i < 3**n; i++ {
 		s := valid[r.intn(len(valid))]
